@@ -145,7 +145,7 @@ class Sim:
             es = [e for e in cmds if e.get('deps') and e.get('hidden') and any(i in srcs for i in e['exp'] + e['imp'])]
             if es:
                 e = es[op['a'] % len(es)]
-                cand = [x for x in srcs if x not in e['exp'] + e['imp'] + e['oo']]
+                cand = [x for x in srcs if x not in e['exp'] + e['imp'] + e['oo'] and x in self.files]
                 gen_h = [h for h in e['hidden'] if h not in srcs]
                 nsrc = len(e['hidden']) - len(gen_h)
                 if len(cand) >= max(nsrc, 1):
@@ -165,7 +165,7 @@ class Sim:
             if es:
                 e = es[op['a'] % len(es)]
                 old = [h for h in e['hidden'] if h in srcs][0]
-                cand = [x for x in srcs if x not in e['exp'] + e['imp'] + e['oo'] + e['hidden']]
+                cand = [x for x in srcs if x not in e['exp'] + e['imp'] + e['oo'] + e['hidden'] and x in self.files]
                 if cand and old in self.files:
                     new = cand[op['b'] % len(cand)]
                     self.write(new, self.files[old]['c'])
@@ -183,6 +183,46 @@ class Sim:
         elif k == 'touch':
             s = srcs[op['a'] % len(srcs)]
             self.touch(s)
+        elif k == 'del_src':
+            # only files that are declared inputs and nothing else: a vanished *discovered* input is a different clause
+            # (rebuild, no error), and the command reading it would fail on its own
+            special = set(h for e in g['edges'] for h in e.get('hidden', [])) | set(i for e in g['edges'] for i in models.dd_inputs(g, e)) | \
+                set(g.get('dd_files', {})) | {'sv'}
+            declared = set(i for e in g['edges'] for i in e['exp'] + e['imp'] + e['oo'])
+            cand = [s_ for s_ in srcs if s_ in self.files and s_ in declared and s_ not in special and not s_.startswith('ddsrc')]
+            if cand:
+                self.delete(cand[op['a'] % len(cand)])
+                self.labels.add('declared_source_deleted')
+        elif k == 'add_oo' and cmds:
+            # (macro step) a statement gets two more order-only inputs: the output of an earlier statement and a plain source
+            self.macro_ctx = None
+            idx = [i for i, e in enumerate(g['edges']) if not e['phony'] and not e.get('is_dd_producer') and not e.get('bare')]
+            if idx:
+                xi = idx[op['a'] % len(idx)]
+                X = g['edges'][xi]
+                xin = set(X['exp'] + X['imp'] + X['oo'] + list(X.get('hidden', [])) + models.dd_inputs(g, X))
+                special = set(h for e in g['edges'] for h in e.get('hidden', [])) | set(i for e in g['edges'] for i in models.dd_inputs(g, e)) | \
+                    set(g.get('dd_files', {})) | {'sv'}
+                earlier = [e for e in g['edges'][:xi] if not e['phony'] and not e.get('is_dd_producer') and not (set(all_outs(e)) & xin)
+                           and any(s_ in srcs and s_ not in xin and s_ in self.files for s_ in e['exp'] + e['imp'])]
+                cand = [s_ for s_ in srcs if s_ in self.files and s_ not in xin and s_ not in special and not s_.startswith('ddsrc')]
+                if earlier and cand:
+                    P = earlier[op['b'] % len(earlier)]
+                    psrc = [s_ for s_ in P['exp'] + P['imp'] if s_ in srcs and s_ not in xin and s_ in self.files][0]
+                    cand = [s_ for s_ in cand if s_ != psrc]
+                    if cand:
+                        S = cand[op['b'] % len(cand)]
+                        X['oo'] = X['oo'] + [all_outs(P)[0], S]
+                        self.macro_ctx = dict(X=key(X), S=S, psrc=psrc)
+                        self.labels.add('order_only_source_and_generated_added')
+        elif k == 'ctx_del_src':
+            if getattr(self, 'macro_ctx', None):
+                self.delete(self.macro_ctx['S'])
+                self.labels.add('order_only_source_deleted_while_producer_dirty')
+        elif k == 'ctx_edit_psrc':
+            if getattr(self, 'macro_ctx', None):
+                s_ = self.macro_ctx['psrc']
+                self.write(s_, self.new_content(s_, op.get('c', 5)))
         elif k == 'del_out' and cmds:
             outs = [o for e in cmds for o in all_outs(e)]
             self.delete(outs[op['a'] % len(outs)])
@@ -869,6 +909,35 @@ class Sim:
                 seq = [dict(op='swap_hidden_same_content', a=op['a'], b=op['b']), b_all, dict(op='edit_recent_hidden'), b_all]
             elif k == 'm_rehide_then_edit':
                 seq = [dict(op='rehide', a=op['a'], b=op['b'], c=op['c']), b_all, dict(op='edit_recent_hidden'), b_all]
+            elif k == 'm_missing_oo_source':
+                # a statement that is itself up to date waits for a dirty order-only producer, and another of its order-only
+                # inputs - a plain source - has disappeared: must be reported before anything runs
+                yield dict(op='add_oo', a=op['a'], b=op['b'])
+                yield b_all
+                yield dict(op='ctx_del_src')
+                yield dict(op='ctx_edit_psrc', c=op['c'])
+                ctx = getattr(self, 'macro_ctx', None)
+                yield dict(b_all, targets=[ctx['X']]) if ctx else b_all
+                continue
+            elif k == 'm_overlapping_failures':
+                # more commands fail while running together than -k allows, with other work still waiting
+                cmds_ = self.cmd_edges()
+                yield dict(op='wipe_outs')
+                # -k1 -j2 with three failing commands, or -k2 -j3 with four: the slots fill up with failing commands, the
+                # budget is used up while one of them is still running, and something else is still waiting for a slot
+                # (the manifest gains kk+2 independent statements that read one source each, all of which fail)
+                kk = 1 + op['c'] % 2
+                srcs_ = [s_ for s_ in self.g['srcs'] if s_ in self.files and not s_.startswith('ddsrc')]
+                if srcs_ and not any(key(e) == 'ovf0' for e in self.g['edges']):
+                    for i in range(kk + 2):
+                        self.g['edges'].append(dict(outs=['ovf%d' % i], iouts=[], phony=False, exp=[srcs_[(op['a'] + i) % len(srcs_)]], imp=[], oo=[], vals=[],
+                                                    restat=False, generator=False, deps='', hidden=[], variant='v0', pool='', rsp=None, dd=None, depfile_layout=0))
+                    self.labels.add('manifest_statement_added')
+                n_ = len(self.cmd_edges())
+                yield dict(op='build', sel=2, j=kk + 1, k=kk, sched=op['sched'],
+                           faults=[(n_ - 1 - i, 1 + i, False) for i in range(kk + 2)])
+                yield b_all
+                continue
             elif k == 'm_bloat_then_rebuild':
                 # the log reaches the recompaction threshold, then an ordinary incremental build crosses it
                 seq = [dict(op='bloat_log'), dict(op='edit', a=op['a'], c=5), b_all]
